@@ -104,8 +104,8 @@ def stepCore (F : Facts) (s : Srv) : Label → Option Srv
   | .runSpawn =>
     if s.run = .accepted then
       if F.addGuarded then
-        if stopping s then none
-        else if s.cancelled then some { s with run := .loopTop }     -- connection closed, not served
+        -- the cancellation check and `connWg.Add(1)` are atomic with respect to Stop's cancel
+        if s.cancelled then some { s with run := .loopTop }     -- connection closed, not served
         else some { s with run := .loopTop, connWg := s.connWg + 1,
                            conns := s.conns ++ [{ id := s.nextConn, gor := .serving, live := 0, netClosed := 0, onClosed := 0 }] }
       else some { s with run := .loopTop, connWg := s.connWg + 1,
